@@ -3,7 +3,7 @@
 from common_props import COMMON_TRUSTED
 
 CFG = {
-    "engines": [["relayfwd", 90, 400], ["relaydiff", 600, 4000], ["relayappend", 40, 300]],
+    "engines": [["relayfwd", 90, 400], ["relaydiff", 600, 4000], ["relayappend", 40, 300], ["relaygap", 40, 400]],
     "rule": "relayfwd/lazyreq (12 per scenario): call req first-frame payloads built from the protocol layout (service 0..255 bytes, 0..25 "
             "transport headers incl. duplicates of as/cn/rd/rk, ttl {0,1,..,2^32-1}, all checksum type bytes, arg sizes up to multi-frame, "
             "frame limits 700..65519) plus truncations, bit flips, random bytes, out-of-range checksum types, through the real "
@@ -27,7 +27,17 @@ CFG = {
             "unset/3.5/5/30 s, arg2 0-66000, arg3 0-200000 with flush patterns, responses ok / application error / six system error codes, "
             "0-140000 byte responses, three checksum types, concurrent batches): handler accessors, arguments, remaining deadline, caller "
             "outcome on every path vs what was sent, and byte taps on the client and server sockets compare tracing span and ttl on the "
-            "wire. relayappend: real client - appending relay - real handler. Every case counts as non-trivial; distinct by input.",
+            "wire. relayappend: real client - appending relay - real handler. "
+            "relaygap (clause b, no response with a gap): directed stall/drain scenarios on a real relay whose connection to the caller "
+            "has a stallable writer (wrapped listener; SendBufferSize 1-8): a multi-frame response (2-17 frames of 150-65519 byte payload, "
+            "all four checksum types) with 0-2 frames delivered, then the writer parks, SendBufferSize+1 frames are queued and 1-3 "
+            "NON-final frames are dropped (relay-source-conn-slow, checked with ping barriers on the destination connection), then the "
+            "connection drains and 0-2 more non-final frames plus the frame that ends the response / an error frame / nothing arrive "
+            "within the tombstone period; raw caller and raw destination (sub relaygap: per destination frame forwarded or not, "
+            "Failed/End callbacks, live items, tombstones compared with the interleaving model Model/RelayGap.v; oracle: the caller's "
+            "frames are a prefix of the destination's and a conforming reassembly never completes with bytes missing) and a REAL client "
+            "(raw.Call with a 1.2 s deadline, sub relaygapcall: exact response or error, never success with missing bytes, never "
+            "blocked past the deadline; checksum none and crc32). Every case counts as non-trivial; distinct by input.",
     "trusted_base": COMMON_TRUSTED + [
         "modelled by hand (tied by correspondence on every run): newLazyCallReq, lazyCallReq.arg2/arg3/Service/Span/SetTTL, Relayer.Relay/"
         "handleCallReq/handleNonCallReq/Receive/addRelayItem/finishRelayItem/failRelayItem/timeoutRelayItem, relayItems Get/Add/Delete/Entomb "
@@ -36,6 +46,12 @@ CFG = {
         "regenerated from source by go2v on every run: validateRelayMaxTimeout, lazyCallReq.TTL (hint: the 4 ttl bytes => ttl_ms), relayRoute "
         "(handleFrameRelay), frameTypeFor, finishesCall, hasMoreFragments, ChecksumSize, the offsets _ttlIndex/_ttlLen/_spanIndex/_spanLength/"
         "_serviceLenIndex/_serviceNameIndex, message type and error codes, the relay error strings",
+        "regenerated from source by go2v on every run (Gen/GenRelayGate.v, statement regions): relayReceiveGate (Relayer.Receive between its item "
+        "lookup and the first reporting statement), relayNonCallGate (Relayer.handleNonCallReq, same region), relayFailItem (Relayer.failRelayItem "
+        "after its lookup); hints: item.tomb/finished/stopped/ok are parameters, logging and verifPoint statements dropped, marker lets for "
+        "Entomb/SendSystemError/Failed/End/decrementPending",
+        "Model/RelayItems.v (interleaving model of the relay bookkeeping, shared with C09/C10, tied there by the relaysched engine) is "
+        "tied for C08 by the generated gates, by the relaygap correspondence and by the statement oracle of relaygap",
         "Spec/RelaySpec.v (one-table transparent relay) and Spec/Protocol.v (layouts) written from the property text / protocol document",
         "rawpeer.go: independent TChannel peer written from the protocol document (frames, handshake, call fragments, CRC)",
     ],
@@ -44,7 +60,12 @@ CFG = {
         "inside it, which is harmless for the modelled state because destination ids come from an atomic counter and the items of different "
         "calls have different keys (races with relay timers and connection close are C09/C10/C07 matters)",
         "in-order delivery relies on one reader goroutine per connection and FIFO Go channels (sendCh)",
-        "not modelled: a full send queue (relay-dest-conn-slow / relay-source-conn-slow), connection state changes, RelayLocalHandlers, "
+        "C08_no_gap quantifies over fresh request ids (run_fresh: a caller does not re-use an id on a connection while the relay "
+        "remembers it) and forbids only frames that FINISH the call after a dropped response frame: a non-final response frame can still "
+        "pass in the window in which both relay timers of the call have fired but not yet run (the known C09/C10 timer race); the caller then "
+        "gets the timeout error frame or runs into its own deadline, never a completed response; C08_no_frame_after_drop gives 'no response "
+        "frame at all after the drop' for runs without relay-timer expiry",
+        "not modelled in Model/RelayFwd.v (modelled in Model/RelayItems.v): a full send queue (relay-dest-conn-slow / relay-source-conn-slow); not modelled: connection state changes, RelayLocalHandlers, "
         "PropagateCancel=true is modelled but not exercised, call res frames with an empty payload (the code reads a byte beyond the sized payload)",
         "no 2^32 wrap of a connection's id counter within the lifetime of a call (hypothesis of C08_remap_injective/C08_fresh_id/C08_order; "
         "the wrap itself is exercised by the engine)",
